@@ -72,6 +72,26 @@ Theorem C01_voluntary_first :
 Proof. exact at_neg_voluntary_first. Qed.
 Print Assumptions C01_voluntary_first.
 
+(* The literal reading of that clause also counts voluntary features the
+   advertisement named while their prerequisites did not hold (they never enter
+   the cache).  It is false of the code: after a voluntary feature changed the
+   state, a required one is taken while such a feature is eligible by now. *)
+Definition C01_voluntary_first_literal_statement : Prop := voluntary_first_literal_statement.
+
+Theorem C01_voluntary_first_literal_refuted : ~ C01_voluntary_first_literal_statement.
+Proof. exact voluntary_first_literal_false. Qed.
+Print Assumptions C01_voluntary_first_literal_refuted.
+
+(* what holds: a voluntary feature open at that moment is not an entry of the cache *)
+Theorem C01_voluntary_first_literal_partial :
+  forall c bits clear tls outs choices pre post f st o,
+  trace (run c bits clear tls outs choices) = pre ++ ENeg f st o :: post ->
+  let q := final (c_feats c) (c_ws c) (mon0 bits) pre in
+  q_recv q = false -> In (true, f) (q_cache q) ->
+  forall g, In (false, g) (q_advall q) -> cand (q_negd q) st (false, g) = true -> ~ In (false, g) (q_cache q).
+Proof. exact voluntary_first_literal_partial. Qed.
+Print Assumptions C01_voluntary_first_literal_partial.
+
 (* State bits only ever get added, and only by successful negotiations: the
    state a Negotiate call sees is EXACTLY the initial bits plus the masks of the
    successful calls before it on this session ([acc_bits]); hence it contains
@@ -208,7 +228,7 @@ Theorem C01_established_literal_partial :
   let q := final (c_feats c) (c_ws c) (mon0 bits) (trace r) in
   r_class r = ROk -> self_ready (trace r) = false ->
   q_need_header q = false /\
-  forall g, In g (q_advreq q) -> cand (q_negd q) (q_last q) (true, g) = true -> ~ In (true, g) (q_cache q).
+  forall g, In (true, g) (q_advall q) -> cand (q_negd q) (q_last q) (true, g) = true -> ~ In (true, g) (q_cache q).
 Proof. exact established_literal_partial. Qed.
 Print Assumptions C01_established_literal_partial.
 
